@@ -48,7 +48,7 @@ def _writes(node, table):
 
 
 def run(ck):
-    ck.rule("R5", "no loop walks a live view of a container of the graph while removing from that container", floor=15)
+    ck.rule("R5", "no loop walks a live view of a container of the graph while removing from that container", floor=13)
     from rules.c30 import live_iteration_rules
     live_iteration_rules(ck, "R5", [("miasm/core/asmblock.py", "AsmCFG")])
     m = ck.repo.mod(REL)
@@ -56,10 +56,10 @@ def run(ck):
     raw = m.methods("AsmCFG")
     # private helpers of the class are part of the method that calls them (an extracted `_add_pending` is still add_block filing a pending)
     meths = dict((k_, inline_helpers(v_, raw, accept=lambda n_: n_.startswith("_") and not n_.startswith("__"))) for k_, v_ in raw.items())
-    ck.rule("R1", "add_edge/del_edge update constraint table, graph edge and bto together", floor=5)
-    ck.rule("R2", "block removal purges its pendings; add_block resolves waiters and files pendings/edges", floor=5)
-    ck.rule("R3", "rebuild_edges resets pendings and derives edges only from bto", floor=4)
-    ck.rule("R4", "internal tables are written only by AsmCFG methods", floor=3)
+    ck.rule("R1", "add_edge/del_edge update constraint table, graph edge and bto together", floor=2)
+    ck.rule("R2", "block removal purges its pendings; add_block resolves waiters and files pendings/edges", floor=2)
+    ck.rule("R3", "rebuild_edges resets pendings and derives edges only from bto", floor=2)
+    ck.rule("R4", "internal tables are written only by AsmCFG methods", floor=1)
     ck.rule("R6", "constraints live in a set (AsmBlock.bto) and are updated in place: they are hashed by identity", floor=1)
     # a constraint's target and kind are plain writable attributes (rebuild_edges and user code change them in place) and the
     # constraint sits in the set `bto`: with a value-based __eq__ / __hash__ an updated constraint stays filed under its old hash,
